@@ -292,3 +292,11 @@ func (g *Gen) ConstRoot() *X {
 		return g.Root()
 	}
 }
+
+// ConstRootOr draws from the rewrite-biased generator (true) or the plain one.
+func (g *Gen) ConstRootOr(biased bool) *X {
+	if biased {
+		return g.ConstRoot()
+	}
+	return g.Root()
+}
